@@ -103,7 +103,7 @@ func checkC02(c *Ctx) (int, error) {
 		return 0, err
 	}
 	rng := rand.New(rand.NewSource(c.Seed))
-	num, nEnc := 600, 60
+	num, nEnc := 1500, 100
 	if c.Tier == "thorough" {
 		num, nEnc = 15000, 1500
 	}
@@ -186,7 +186,7 @@ func checkC03(c *Ctx) (int, error) {
 		return 0, err
 	}
 	rng := rand.New(rand.NewSource(c.Seed))
-	num, nMut, nTrunc := 700, 1500, 6
+	num, nMut, nTrunc := 1500, 6000, 8
 	if c.Tier == "thorough" {
 		num, nMut, nTrunc = 15000, 80000, 100
 	}
